@@ -156,7 +156,7 @@ def rule_sites(ctx):
     sites, where, n_reach, n_roots = collect_sites(fx, cg)
     ctx.count("functions_reachable", n_reach)
     ctx.count("roots", n_roots)
-    ctx.floor("PANIC-TAB", "panic_sites", sum(sites.values()), 70)
+    ctx.floor("PANIC-TAB", "panic_sites", sum(sites.values()), 20)  # guard that the collector works; fewer sites is an improvement
     for (fn, kind), n in sorted(sites.items()):
         if fn == "<pest parsers>":
             continue  # PANIC-GCOV / PANIC-NUM
@@ -241,7 +241,7 @@ def rule_structural_discharges(ctx):
                     n += 1
                     ctx.add("PANIC-ARITY", "%s:index#%d" % (hq.last(b["def_path"], 2), n), lit is not None and all(isinstance(x, int) and x < lit for x in lits), ctx.site(b, c),
                             "constant indices %s into choose_fresh_variable_names(.., %s)" % (lits, lit))
-    ctx.floor("PANIC-ARITY", "arity_sites", n, 7)
+    ctx.floor("PANIC-ARITY", "arity_sites", n, 1)
     cf = fx.fn("tau_star::choose_fresh_variable_names")
     v = sym.Eval(fx, inline_depth=0).function(cf)
     r = repr(v)
@@ -409,7 +409,7 @@ def rule_flow_err(ctx):
         ok = hq.is_try_propagated(pm, c)
         n += 1
         ctx.add("FLOW-ERR", "main:%s#%d" % (hq.last(name, 2), n), ok, ctx.site(m, c), "fallible call %s is propagated with `?`" % hq.render(c)[:70])
-    ctx.floor("FLOW-ERR", "main_fallible_calls", n, 10)
+    ctx.floor("FLOW-ERR", "main_fallible_calls", n, 3)
     # reading input: errors of read_to_string / parse carry context and are returned
     nd = fx.fn("Node::from_file")
     v = sym.Eval(fx, inline_depth=0).function(nd)
